@@ -187,6 +187,31 @@ func (s *S) BadAlias(i, j int) []byte { return s.data[i:j] }
 // GoodCopy returns a private copy.
 func (s *S) GoodCopy(i, j int) []byte { return append([]byte(nil), s.data[i:j]...) }
 
+// BadRetain keeps the caller's buffer.
+func (s *S) BadRetain(p []byte) { s.data = p }
+
+// BadScribble modifies the caller's buffer.
+func (s *S) BadScribble(p []byte) {
+	if len(p) > 0 {
+		p[0] = 0
+	}
+}
+
+// GoodCopyIn only copies from the caller's buffer.
+func (s *S) GoodCopyIn(p []byte) { s.data = append(s.data[:0], p...) }
+
+// ---- E-GBY ----
+
+// BadUnguarded writes the guarded field without the lock.
+func (s *S) BadUnguarded() { s.n++ }
+
+// GoodGuarded writes it under the lock.
+func (s *S) GoodGuarded() {
+	s.mu.Lock()
+	s.n++
+	s.mu.Unlock()
+}
+
 // ---- E-ERR ----
 
 // BadDroppedError ignores the error of a durability call.
